@@ -171,3 +171,12 @@ CHECKS["C04"] = {
     "note": _FRAG_NOTE + " The output layer (Output, TableData, BaseData, per-mode dataclasses) is evaluated by the object-capable abstract interpreter on the lock-step values. Known finding: NOT NULL / NULL after ALTER ... ADD column.",
 }
 NOT_APPLICABLE.pop("C04", None)
+CHECKS["C18"] = {
+    "engine": "E3 lexmodel x E4 deriv (entities fragment) x objabs (output layer, flat and grouped)",
+    "category": "model_checking",
+    "technique": "static fixed point over the entity statement forms with abstract interpretation of the actions and of Output.format (flat and group_by_type) against property-level expectations",
+    "text": "For every statement form of the fragment (types as enum / object / table, domains, schemas with IF NOT EXISTS / AUTHORIZATION / COMMENT, databases, tablespaces with kind and temporary flags, names plain or schema-qualified, 1..3 enum values) the final output holds exactly one entity with exactly the marker key of its kind and the declared details as written, group_by_type files it exactly once in its bucket, and a table using such a type reports the type name verbatim. CREATE DOMAIN without a parenthesised list is a recorded known finding.",
+    "design_ref": "DESIGN.md section 4 C18",
+    "note": _FRAG_NOTE,
+}
+NOT_APPLICABLE.pop("C18", None)
